@@ -2472,7 +2472,7 @@ class _DOP853(_AdaptiveStepRK):
 
             y_high, y_low, err_vec, err5, err3, k = dop853_step_jit_kernel(f, t, y, h, A, B_HIGH, C, E5, E3)
             scale = _error_scale(y, y_high, rtol, atol)
-            # SciPy-compatible combined error norm for DOP853
+            # SciPy-compatible combined error norm for DOP853 (err5, err3 already carry the factor h)
             err5_scaled = err5 / scale
             err3_scaled = err3 / scale
             err5_norm_2 = np.dot(err5_scaled, err5_scaled)
@@ -2481,7 +2481,7 @@ class _DOP853(_AdaptiveStepRK):
                 err_norm = 0.0
             else:
                 denom = err5_norm_2 + 0.01 * err3_norm_2
-                err_norm = np.abs(h) * err5_norm_2 / np.sqrt(denom * scale.size)
+                err_norm = err5_norm_2 / np.sqrt(denom * scale.size)
 
             if err_norm <= 1.0:
                 t_new = t + h
@@ -2599,7 +2599,7 @@ class _DOP853(_AdaptiveStepRK):
 
             y_high, y_low, err_vec, err5, err3, k = dop853_step_ham_jit_kernel(t, y, h, A, B_HIGH, C, E5, E3, jac_H, clmo_H, n_dof)
             scale = _error_scale(y, y_high, rtol, atol)
-            # SciPy-compatible combined error norm for DOP853
+            # SciPy-compatible combined error norm for DOP853 (err5, err3 already carry the factor h)
             err5_scaled = err5 / scale
             err3_scaled = err3 / scale
             err5_norm_2 = np.dot(err5_scaled, err5_scaled)
@@ -2608,7 +2608,7 @@ class _DOP853(_AdaptiveStepRK):
                 err_norm = 0.0
             else:
                 denom = err5_norm_2 + 0.01 * err3_norm_2
-                err_norm = np.abs(h) * err5_norm_2 / np.sqrt(denom * scale.size)
+                err_norm = err5_norm_2 / np.sqrt(denom * scale.size)
 
             if err_norm <= 1.0:
                 t_new = t + h
@@ -2790,7 +2790,7 @@ class _DOP853(_AdaptiveStepRK):
                 err_norm = 0.0
             else:
                 denom = err5_norm_2 + 0.01 * err3_norm_2
-                err_norm = np.abs(h) * err5_norm_2 / np.sqrt(denom * scale.size)
+                err_norm = err5_norm_2 / np.sqrt(denom * scale.size)
 
             if err_norm <= 1.0:
                 # accept
@@ -2855,7 +2855,7 @@ class _DOP853(_AdaptiveStepRK):
                 err_norm = 0.0
             else:
                 denom = err5_norm_2 + 0.01 * err3_norm_2
-                err_norm = np.abs(h) * err5_norm_2 / np.sqrt(denom * scale.size)
+                err_norm = err5_norm_2 / np.sqrt(denom * scale.size)
 
             if err_norm <= 1.0:
                 # accept
